@@ -2006,10 +2006,19 @@ impl<'a> Tr<'a> {
                 }
                 self.env.push(HashMap::new());
                 let xpat = self.for_pattern(&f.pat);
+                // a `break` in the body: the fold carries "stopped" beside the state (fold_brk), the body answers
+                // (state, true) at a break and (state, false) when it runs to its end — as for `loop`
+                let brk = sc.has_break;
+                if brk {
+                    self.loop_brk.push(vars.clone());
+                }
                 let body = match &xpat {
-                    Ok(_) => self.seq(&f.body.stmts, &K::Join(vars.clone())),
+                    Ok(_) => self.seq(&f.body.stmts, &if brk { K::LoopBrk(vars.clone()) } else { K::Join(vars.clone()) }),
                     Err(e) => Err(e.clone()),
                 };
+                if brk {
+                    self.loop_brk.pop();
+                }
                 self.env = saved;
                 let xpat = xpat?;
                 let (xv, body) = if xpat.starts_with("'(") {
@@ -2034,7 +2043,7 @@ impl<'a> Tr<'a> {
                 let restc = self.seq(rest, k)?;
                 Ok(Self::wrap_binds(
                     binds,
-                    format!("obind ({} (fun {} {} =>\n{}) {} {}) (fun {} =>\n{})", if self.t.restype.is_some() { "fold_out" } else { "fold_res" }, pat(&params), xv, body, it, tuple(&init), pat(&outs), restc),
+                    format!("obind ({} (fun {} {} =>\n{}) {} {}) (fun {} =>\n{})", if brk { "fold_brk" } else if self.t.restype.is_some() { "fold_out" } else { "fold_res" }, pat(&params), xv, body, it, tuple(&init), pat(&outs), restc),
                 ))
             }
             Expr::ForLoop(f) if self.loop_depth == 0 && self.loop_sr.is_empty() && {
